@@ -148,17 +148,9 @@ Lemma spec_int_target s k x : spec_conv s (NI k) x = target_fit (NI k) (Z.quot x
 Proof. unfold spec_conv, spec_conv_round, round_div. simpl scale. rewrite Z.mul_1_r. reflexivity. Qed.
 
 Theorem int_target_correct s k x :
-  wf_nkind s -> wf_kind k -> n_in_range s x -> ~ floor_defect s x ->
+  wf_nkind s -> wf_kind k -> n_in_range s x ->
   conv_model s (NI k) x = spec_conv s (NI k) x.
 Proof.
   intros. rewrite int_target_reads, spec_int_target by assumption.
   rewrite code_ipart_trunc by assumption. reflexivity.
-Qed.
-
-(* what the code does on the defect inputs: conversion of the FLOOR of the value *)
-Theorem int_target_floor_defect k x :
-  wf_kind k -> n_in_range NFix128 x -> x < 0 -> x mod e24 <> 0 ->
-  conv_model NFix128 (NI k) x = target_fit (NI k) (Z.quot x e24 - 1).
-Proof.
-  intros. rewrite int_target_reads by (simpl; auto). rewrite code_ipart_floor_defect by assumption. reflexivity.
 Qed.
